@@ -79,8 +79,15 @@ def run(tier, seed):
             os.remove(path)
             return
         counters["files"] += 1
-        if names != NAMES:
-            chk.violation("stats-names", "run %s: metric names %s" % (tag, names), {"cmd": cmd})
+        # columns are looked up by the names the file itself declares (a new metric or another order is not a violation)
+        need = {"processed messages": None, "rollbacks": None, "rolled back messages": None, "silent messages": None, "checkpoints": None, "anti messages": None}
+        for nm in need:
+            if nm not in names:
+                chk.violation("stats-metric-missing", "run %s: the file declares no metric named %r (has %s)" % (tag, nm, names), {"cmd": cmd})
+                os.remove(path)
+                return
+            need[nm] = names.index(nm)
+        iF, iR, iU, iS, iC, iA = (need[k] for k in ("processed messages", "rollbacks", "rolled back messages", "silent messages", "checkpoints", "anti messages"))
         p = subprocess.run([sys.executable, "-c", "import sys; sys.path.insert(0, %r); import rootsim_stats; rootsim_stats.RSStats(%r)" % (os.path.dirname(shipped), path)],
                            stdout=subprocess.PIPE, stderr=subprocess.PIPE, text=True)
         if p.returncode != 0:
@@ -107,13 +114,13 @@ def run(tier, seed):
                     chk.violation("records-vs-gvt-values-consumed", "run %s node %d: thread %d completed %d reductions, its statistics hold %d records" % (tag, ni, t, len(w), len(recs_t)), {"cmd": cmd})
                 for k, r in enumerate(recs_t):
                     counters["recs"] += 1
-                    cum_f += r[0]
-                    cum_u += r[4]
+                    cum_f += r[iF]
+                    cum_u += r[iU]
                     if cum_u > cum_f:
                         chk.violation("undone-exceeds-forward", "run %s node %d: thread %d record %d: cumulative undone %d > forward %d" % (tag, ni, t, k, cum_u, cum_f), {"cmd": cmd})
                     if k in w:
                         gv, fwd, rb, und, sil, ck, anti = w[k]
-                        got = (r[0], r[2], r[4], r[8], r[5], r[10])
+                        got = (r[iF], r[iR], r[iU], r[iS], r[iC], r[iA])
                         want = (fwd, rb, und, sil, ck, anti)
                         if got != want:
                             chk.violation("record-differs-from-observed-events", "run %s node %d: thread %d record %d reports (forward, rollbacks, undone, silent, checkpoints, anti) = %s, the hooks observed %s" % (tag, ni, t, k, got, want), {"cmd": cmd})
